@@ -52,8 +52,11 @@ monitor and the differential whole runs of harness/props/c12.py are the back-sto
                   .add .discard .appendleft .extendleft  |  x[...] = v  |  del x[...]  |  x += v  |
                   `global X` + assignment  |  Class.ATTR = v / module.ATTR = v inside a function
 
-The extractor exits 2 (never passes silently) when a source file cannot be read/parsed, when the entry
-module or one of the three seed-point patterns is missing.
+The extractor exits 2 (never passes silently) when a source file cannot be read/parsed or the entry module is
+missing.  A missing code PATTERN (day loop, emission loops, Infrastructure(...) construction, simulate(),
+gen_seed_timeseries' reuse test) is not an exit: it is listed in the table `patternErrors` (obligation
+`patterns_found : patternErrors = []` breaks), the affected entries take their failing default, and the check
+goes on searching for a failing input with the differential runs.
 """
 from __future__ import annotations
 
@@ -79,7 +82,12 @@ OTHER_PATHS = {"os.urandom", "uuid.uuid1", "uuid.uuid4"}
 
 
 class ExtractError(Exception):
-    pass
+    """the source cannot be read / parsed at all: exit 2"""
+
+
+class PatternError(ExtractError):
+    """a code shape the extractor relies on is gone: recorded in the table `patternErrors` (obligation
+    `patterns_found` breaks, the affected table entries take their failing default) and the check goes on"""
 
 
 def repo_root():
@@ -667,6 +675,7 @@ class Extractor:
         self.rng, self.seeds, self.mutations, self.seed_points = [], [], [], []
         self.class_alias = {}
         self.instance_attrs = {}
+        self.pattern_errors = []
 
     # -- functions -------------------------------------------------------------------------------
     def scan_function(self, m, node, qual, cur_class, class_alias):
@@ -730,23 +739,31 @@ class Extractor:
         return node
 
     def seed_point_patterns(self):
+        for part in (self._sp_day_loop, self._sp_emission_loops, self._sp_infrastructure):
+            try:
+                part()
+            except PatternError as e:
+                self.pattern_errors.append(str(e))
+
+    def _sp_day_loop(self):
         # 1. day loop
         mod = self.mods.get("ldar_sim")
         fn = self.find_func(mod, "LdarSim.run_simulation") if mod else None
         if fn is None:
-            raise ExtractError("pattern missing: ldar_sim.LdarSim.run_simulation")
+            raise PatternError("pattern missing: ldar_sim.LdarSim.run_simulation")
         loops = [n for n in ast.walk(fn) if isinstance(n, (ast.While, ast.For))]
         day = [n for n in loops if isinstance(n, ast.While)]
         if len(day) != 1:
-            raise ExtractError(f"pattern missing: exactly one while-loop (the day loop) in LdarSim.run_simulation, found {len(day)}")
+            raise PatternError(f"pattern missing: exactly one while-loop (the day loop) in LdarSim.run_simulation, found {len(day)}")
         lp = day[0]
         self.seed_points.append(seed_point(mod, lp.lineno, "LdarSim.run_simulation", "dayLoop",
                                            stmt_seed_call(mod, lp.body[0]) if lp.body else None))
+    def _sp_emission_loops(self):
         # 2. emission generation loops
         mod = self.mods.get("initialization.initialize_emissions")
         fn = self.find_func(mod, "initialize_emissions") if mod else None
         if fn is None:
-            raise ExtractError("pattern missing: initialization.initialize_emissions.initialize_emissions")
+            raise PatternError("pattern missing: initialization.initialize_emissions.initialize_emissions")
         n = 0
         for lp in [x for x in ast.walk(fn) if isinstance(x, (ast.For, ast.While))]:
             calls = [c for c in ast.walk(lp) if isinstance(c, ast.Call) and isinstance(c.func, ast.Attribute)
@@ -756,12 +773,13 @@ class Extractor:
                 self.seed_points.append(seed_point(mod, lp.lineno, "initialize_emissions", "emissionLoop",
                                                    stmt_seed_call(mod, lp.body[0]) if lp.body else None))
         if n == 0:
-            raise ExtractError("pattern missing: a loop calling .generate_emissions in initialize_emissions()")
+            raise PatternError("pattern missing: a loop calling .generate_emissions in initialize_emissions()")
+    def _sp_infrastructure(self):
         # 3. infrastructure construction
         mod = self.mods.get("initialization.initialize_infrastructure")
         fn = self.find_func(mod, "initialize_infrastructure") if mod else None
         if fn is None:
-            raise ExtractError("pattern missing: initialization.initialize_infrastructure.initialize_infrastructure")
+            raise PatternError("pattern missing: initialization.initialize_infrastructure.initialize_infrastructure")
         n = 0
 
         def blocks(node):
@@ -787,7 +805,7 @@ class Extractor:
 
         scan(fn.body)
         if n == 0:
-            raise ExtractError("pattern missing: Infrastructure(...) construction in initialize_infrastructure()")
+            raise PatternError("pattern missing: Infrastructure(...) construction in initialize_infrastructure()")
 
     def seed_series_reuse(self):
         """the test under which gen_seed_timeseries() re-uses a saved daily seed series: it must compare the length
@@ -796,10 +814,10 @@ class Extractor:
         mod = self.mods.get("initialization.preseed")
         fn = self.find_func(mod, "gen_seed_timeseries") if mod else None
         if fn is None:
-            raise ExtractError("pattern missing: initialization.preseed.gen_seed_timeseries")
+            raise PatternError("pattern missing: initialization.preseed.gen_seed_timeseries")
         params = [a.arg for a in fn.args.posonlyargs + fn.args.args]
         if len(params) < 2:
-            raise ExtractError("pattern missing: gen_seed_timeseries(sim_start_date, sim_end_date, ...)")
+            raise PatternError("pattern missing: gen_seed_timeseries(sim_start_date, sim_end_date, ...)")
         start, end = params[0], params[1]
         # the guard of the `return <saved series>` that sits inside the `if os.path.isfile(...)` block
         found = None
@@ -811,7 +829,7 @@ class Extractor:
                     found = node
                     break
         if found is None:
-            raise ExtractError("pattern missing: guarded `return <saved series>` in gen_seed_timeseries()")
+            raise PatternError("pattern missing: guarded `return <saved series>` in gen_seed_timeseries()")
         ret = next(b for b in found.body if isinstance(b, ast.Return))
         series = ast.unparse(ret.value)
         test = found.test
@@ -864,14 +882,29 @@ class Extractor:
 
         G = MO.Graph(self.mods, self.reach)
         self.graph = G
-        pf = MO.prologue_functions(self, G)
         rel_of = {n: self.mods[n].rel for n in self.mods}
-        pkeys = {(rel_of[k[0]], k[1]) for k in pf}
+        try:
+            pf = MO.prologue_functions(self, G)
+            pkeys = {(rel_of[k[0]], k[1]) for k in pf}
+        except PatternError as e:
+            self.pattern_errors.append(str(e))
+            pkeys = {(rel_of[k[0]], k[1]) for k in G.funcs}   # failing default: everything counts as prologue
         self.prologue_funcs = sorted(pkeys)
         self.copy_hooks = MO.copy_hooks(self, G)
-        self.copy_wiring = MO.copy_wiring(self, G)
+        try:
+            self.copy_wiring = MO.copy_wiring(self, G)
+        except PatternError as e:
+            self.pattern_errors.append(str(e))
+            self.copy_wiring = {"file": "simulation/simulation_helpers.py", "line": 0, "deepCopies": False, "usesOnlyCopy": False}
         self.nondet = MO.nondet_sites(self, G)
-        self.seed_reuse = self.seed_series_reuse()
+        self.memo = MO.memo_functions(self, G)
+        self.mutations += self.memo
+        try:
+            self.seed_reuse = self.seed_series_reuse()
+        except PatternError as e:
+            self.pattern_errors.append(str(e))
+            self.seed_reuse = {"file": "initialization/preseed.py", "line": 0, "func": "gen_seed_timeseries", "test": "<pattern missing>",
+                               "checksLength": False, "checksStart": False, "checksEnd": False}
 
         def dedupe(rows, keys):
             seen, out = set(), []
@@ -907,6 +940,7 @@ class Extractor:
             "copyWiring": self.copy_wiring,
             "nondetSites": self.nondet,
             "seedSeriesReuse": self.seed_reuse,
+            "patternErrors": sorted(set(self.pattern_errors)),
         }
 
 
@@ -977,6 +1011,9 @@ def render(t):
              f"checksLength := {'true' if u['checksLength'] else 'false'}, checksStart := {'true' if u['checksStart'] else 'false'}, "
              f"checksEnd := {'true' if u['checksEnd'] else 'false'} }}")
     L.append("")
+    L.append("/-- code shapes the extractor relies on and did not find (must be empty) -/")
+    L.append("def patternErrors : List String := [" + ", ".join(lstr(x) for x in t["patternErrors"]) + "]")
+    L.append("")
     L.append("def nondetSites : List NondetSite := [")
     L.append(",\n".join(
         f"  {{ file := {lstr(r['file'])}, line := {r['line']}, func := {lstr(r['func'])}, kind := .{r['kind']}, call := {lstr(r['call'])} }}"
@@ -990,7 +1027,7 @@ def render(t):
     L.append("/-- the effect summary of the code base, as one record -/")
     L.append("def tables : Tables where")
     for fld in ("rngSites", "seedPoints", "sharedMutations", "prologueRngSites", "copyHooks", "simulateDeepCopies",
-                "simulateUsesOnlyCopy", "nondetSites", "seedSeriesReuse"):
+                "simulateUsesOnlyCopy", "nondetSites", "seedSeriesReuse", "patternErrors"):
         L.append(f"  {fld} := {fld}")
     L.append("")
     L.append("end LdarModel.Generated.Effects")
